@@ -324,6 +324,10 @@ def u_probe_construction(c):
         c.prove("overridable/needs-immediate-focus", st == "raise", note=f"tags={sorted(tags)} probe_type={ptype}: {st}")
     elif bad_tags:
         c.prove("focus-pattern/refused-with-ValueError", st == "raise" and isinstance(r, ValueError))
+    elif tags == {1, 2} and not want_immediate:
+        # a begin/end selector (!x, !!y) reports through the accumulator and the element that fired, which a total rule does not
+        # have: accepted, it fails with an AttributeError when the first call ends -- it must be refused at construction
+        c.prove("focus-pattern/two-focuses-with-a-total-rule-refused", st == "raise" and isinstance(r, ValueError), note=f"{st} {r!r}")
     else:
         c.prove("rule/no-raise", st == "ok")
         if st == "ok":
@@ -453,7 +457,7 @@ def u_equivalences(c):
             c.prove(f"{label}/focus-is-the-marked-variable", main is not None and nm is None and 1 in main.fields["tags"], note=f"{lhs!r}")
 
 
-@unit("interning", ["C15", "C13"], [S + ":InternedMC.__call__", S + ":Element.__init__", S + ":Call.__init__"])
+@unit("interning", ["C15", "C13", "C18"], [S + ":InternedMC.__call__", S + ":Element.__init__", S + ":Call.__init__"])
 def u_interning(c):
     """Compiled selectors that are structurally equal are the same object: two constructions return the same object iff
     all their fields are equal (defaults filled in, keyword order irrelevant); the field values end up in a dictionary key,
@@ -476,6 +480,10 @@ def u_interning(c):
     c.prove("call/same-object-for-equal-fields", k1 is k2)
     k3 = it.call(Call, [], dict(element=e1, captures=(e2,), immediate=True))
     c.prove("call/different-field-different-object", k3 is not k1)
+    # a value to compare a variable with may be any object the environment provides, including one that cannot be hashed (a list):
+    # compiling such a selector must not fail with an internal TypeError
+    st, e5 = run(it, Element, [], dict(name="x", capture="x", value=[1, 2]))
+    c.prove("element/unhashable-value-accepted", st == "ok" and isinstance(e5, Obj) and e5.fields["value"] == [1, 2], note=f"{st} {e5!r}", only=["C18"])
 
 
 @unit("_resolve-element", ["C18", "C11"], [S + ":_resolve", S + ":_eval", S + ":Element.clone"])
